@@ -47,7 +47,7 @@ func main() {
 	n, _ := strconv.Atoi(os.Args[4])
 	doClose := os.Args[5] == "1"
 	// optional 6th argument: bit mask of store options for this run (1: automatic migration off -
-	// only on an existing database, 2: stream batch size 3, 4: short busy timeout, 8: logger+metrics)
+	// only on an existing database, 2: stream batch size 3, 4: short busy timeout, 16: zero busy timeout)
 	var opts []sqlite.Option
 	if len(os.Args) > 6 {
 		m, _ := strconv.Atoi(os.Args[6])
@@ -59,6 +59,9 @@ func main() {
 		}
 		if m&4 != 0 {
 			opts = append(opts, sqlite.WithBusyTimeout(50*time.Millisecond))
+		}
+		if m&16 != 0 {
+			opts = append(opts, sqlite.WithBusyTimeout(0)) // fail at once on contention (there is none: single writer)
 		}
 	}
 	st, err := sqlite.New(db, opts...)
